@@ -3,7 +3,7 @@
 # Usage inside a scratch worktree produced by a seeding sub-agent (has SEED/patch.diff, SEED/demo.diff, SEED/demo_cmd.txt)
 WT=$1
 cd $WT || exit 2
-export CARGO_TARGET_DIR=$WT/target CARGO_NET_OFFLINE=true
+export CARGO_TARGET_DIR=${CONFIRM_TARGET:-$WT/target} CARGO_NET_OFFLINE=true
 LOG=$WT/confirm.log
 : > $LOG
 git reset -q --hard HEAD 2>/dev/null
